@@ -149,6 +149,21 @@ def simplify(t):
                 else:
                     rest.append(a)
             args = tuple(sorted(rest + [const(acc)], key=_key))
+        def _pow2_bits(x):
+            # size_of::<T>() * 8 for the primitive integer block types, or a literal power of two
+            if x[0] == "const" and type(x[1]) is int and x[1] > 0 and x[1] & (x[1] - 1) == 0:
+                return True
+            return x[0] == "op" and x[1] == "Mul" and len(x[2]) == 2 and any(y == const(8) for y in x[2]) and any(y[0] == "call" and y[1] == "size_of" for y in x[2])
+        if name == "Shr" and len(args) == 2 and args[1][0] == "cast":
+            a1 = args[1][2]
+        else:
+            a1 = args[1] if len(args) == 2 else None
+        if name == "Shr" and a1 is not None and a1[0] == "op" and a1[1] == "trailing_zeros" and len(a1[2]) == 1 and _pow2_bits(a1[2][0]):
+            return simplify(("op", "Div", (args[0], a1[2][0])))       # x >> log2(B) for a power of two B
+        if name == "BitAnd" and len(args) == 2:
+            for u, v in (args, args[::-1]):
+                if v[0] == "op" and v[1] == "Sub" and len(v[2]) == 2 and v[2][1] == const(1) and _pow2_bits(v[2][0]):
+                    return simplify(("op", "Rem", (u, v[2][0])))      # x & (B - 1) for a power of two B
         if name == "Shr" and len(args) == 2 and args[0][0] == "op" and args[0][1] == "BitAnd" and len(args[0][2]) == 2:
             # (h & !((1 << b) - 1)) >> b  ==  h >> b : blanking the bits that the shift drops anyway
             def _nc(x):
@@ -1470,6 +1485,15 @@ class TermBuilder:
             return args[0]
         if decl in ("std::rc::Rc::new", "std::boxed::Box::new", "std::convert::From::from", "std::convert::Into::into") and len(args) == 1:
             return args[0]
+        # a whole-vector view: v.as_slice(), v.as_mut_slice(), &v[..]
+        if decl in ("std::vec::Vec::as_slice", "std::vec::Vec::as_mut_slice", "alloc::vec::Vec::as_slice", "alloc::vec::Vec::as_mut_slice") and len(args) == 1:
+            return args[0]
+        if decl in ("std::ops::Index::index", "std::ops::IndexMut::index_mut") and len(args) == 2 and args[1][0] == "adt" and args[1][1] == "std::ops::RangeFull":
+            return args[0]
+        if decl == "fixedbitset::FixedBitSet::contains" and len(args) == 2:
+            return ("index", args[0], args[1])          # bs.contains(i) is what bs[i] is defined as
+        if decl == "std::collections::BTreeSet::pop_first" and len(args) == 1:
+            return ("adt", "std::option::Option", "Some", (("0", elem_of(args[0])),))     # the smallest element (removal: path events)
         # std::mem::take(&mut x) / std::mem::replace(&mut x, v) return the value x held (references are value-transparent)
         if decl in ("std::mem::take", "std::mem::replace") and args:
             return args[0]
